@@ -32,6 +32,7 @@ RECURSIVE HasPrefixFrom(_, _, _)
 HasPrefixFrom(b, p, i) == IF i > Len(p) THEN TRUE
                           ELSE IF i > Len(b) THEN FALSE
                           ELSE b[i] = p[i] /\ HasPrefixFrom(b, p, i + 1)
+HasSuffix(b, p) == Len(b) >= Len(p) /\ SubSeq(b, Len(b) - Len(p) + 1, Len(b)) = p
 PosLine(b) ==   \* the line number in a "c:<digits>:" prefix, or -1
     IF Len(b) < 4 \/ b[1] # 99 \/ b[2] # 58 THEN -1
     ELSE LET r == DecRun(b, 3, 0) IN
@@ -40,6 +41,7 @@ PosLine(b) ==   \* the line number in a "c:<digits>:" prefix, or -1
 TokMatch(exp, got) ==
     CASE exp[1] = "rtmsg" -> got[1] = "s" /\ (exp[2] = 0 \/ LET l == PosLine(got[2]) IN l >= exp[2] /\ l <= exp[3])   \* position 0 = raised by host code: no position judged
       [] exp[1] = "anystr" -> got[1] = "s"
+      [] exp[1] = "fault" -> got[1] = "s" /\ HasSuffix(got[2], <<118, 101, 114, 105, 102, 45, 102, 97, 117, 108, 116>>)   \* "verif-fault"
       [] OTHER -> exp[1] = got[1] /\ exp = got
 ListMatch(exp, got) == Len(exp) = Len(got) /\ \A i \in 1..Len(exp) : TokMatch(exp[i], got[i])
 
